@@ -333,6 +333,14 @@ func ParseOTPAuthURL(u *url.URL) (*URLParam, error) {
 		return nil, fmt.Errorf("malformed query string")
 	}
 
+	// query.Get reads the first value only: "digits=&digits=8" would come back
+	// as the default, "digits=6&digits=300" as 6.
+	for _, key := range []string{"digits", "period"} {
+		if len(query[key]) > 1 {
+			return nil, fmt.Errorf("%s given more than once", key)
+		}
+	}
+
 	param := &URLParam{
 		Issuer:      issuer,
 		AccountName: accountName,
